@@ -177,6 +177,29 @@ def runOp : P String := do
     let P : Params Float := { beta := beta, kappa := kappa, tau := tau, limitSigma := ls, gamma := g }
     let res := rate k lv P PyNum.le PyNum.neg teams outcome { tau := tauO, limitSigma := lsO }
     if allFinite res then pure ("OK " ++ showTeams res) else pure ("NONFINITE " ++ showTeams res)
+  | "TRACE" =>
+    -- the arguments of the gamma callback during rate(), in order (same argument format as RATE)
+    let k ← pKind
+    let _lv ← pLeaves
+    let beta ← pFloat
+    let kappa ← pFloat
+    let tau ← pFloat
+    let ls ← pBool
+    let g ← pGamma
+    let tauO ← pOptFloat
+    let lsO ← pOptBool
+    let oc ← tok
+    let teams ← pTeams
+    let n := teams.length
+    let outcome : Outcome PyNum ← match oc with
+      | "N" => pure Outcome.omitted
+      | "R" => Outcome.ranks <$> pMany n pNum
+      | "S" => Outcome.scores <$> pMany n pNum
+      | t => throw s!"bad-outcome {t}"
+    let P : Params Float := { beta := beta, kappa := kappa, tau := tau, limitSigma := ls, gamma := g }
+    let tr := rateTrace k P PyNum.le PyNum.neg teams outcome { tau := tauO, limitSigma := lsO }
+    pure ("OK " ++ " ".intercalate (tr.map (fun c =>
+      s!"{toHex c.c}:{c.k}:{toHex c.mu}:{toHex c.sig2}:{c.rank}:{",".intercalate (c.ids.map toString)}")))
   | "HRATE" =>
     -- the same model terms evaluated on big floats (192 bits), exact or code leaves
     let k ← pKind
